@@ -5,7 +5,8 @@
    list in order, independent of where unrelated options stand; a platform definition's options come first and the
    user's list after them, so the user wins.  The module generates option lists (with duplicates and two value
    variants per option) and prints Fold for each; the harness applies the real option functions through the four
-   constructors and compares every observable setting.                                                          *)
+   constructors and compares every observable setting.  Every fifth list is also emitted with one invalid option
+   inserted (Invalid / InvScn): the constructor must reject it as the table says, wherever it stands.             *)
 EXTENDS Naturals, Sequences, FiniteSets, ScnRand, TLC, Json
 CONSTANT Count
 VARIABLE n
@@ -84,7 +85,24 @@ Indep(a, b) == LET fa == IF a.o = 0 THEN {"S.PrivateKeyPath", "S.PrivateKeyPassP
 Swap(l, i) == [l EXCEPT ![i] = l[i+1], ![i+1] = l[i]]
 OrderLaw(m) == LET l == List(m, 1 + Below(8, m, 1), 10) IN
                \A i \in 1..(Len(l) - 1) : Indep(l[i], l[i+1]) => Fold(Swap(l, i), Empty) = Fold(l, Empty)
+\* Invalid values: an otherwise valid list with one invalid option at any position (or, for the network constructor, without
+\* the mandatory privilege levels).  reject[ctor] is what the constructor must do: "bad" = an error that is a bad-option
+\* error, "bad-or-ignored" = the option's value is invalid but the option does not apply to that object (the statement's two
+\* clauses overlap: either outcome is accepted, a panic or any other error is not), "error" = some error (a file that
+\* does not exist is reported as file-not-found), "" = nothing to reject.
+Invalid == <<
+  [tag |-> "WithTransportType:bogus",          reject |-> [g |-> "bad", n |-> "bad", c |-> "bad", p |-> "bad"]],
+  [tag |-> "WithNetconfPreferredVersion:bogus", reject |-> [g |-> "bad-or-ignored", n |-> "bad-or-ignored", c |-> "bad", p |-> "bad-or-ignored"]],
+  [tag |-> "WithSSHKnownHostsFile:missing",     reject |-> [g |-> "error", n |-> "error", c |-> "error", p |-> "error"]],
+  [tag |-> "NoPrivilegeLevels:0",               reject |-> [g |-> "", n |-> "bad", c |-> "", p |-> ""]]
+>>
+Insert(l, pos, x) == SubSeq(l, 1, pos) \o <<x>> \o SubSeq(l, pos + 1, Len(l))
+InvScn(m) == LET user == List(m, Below(6, m, 1), 10)
+                 inv == Invalid[1 + Below(Len(Invalid), m, 3)]
+                 tags == [j \in 1..Len(user) |-> Tag(user[j])]
+             IN [id |-> m, kind |-> "invalid", user |-> Insert(tags, Below(Len(user) + 1, m, 4), inv.tag), platform |-> <<>>, reject |-> inv.reject]
 Init == n = 0
 Next == n < Count /\ n' = n + 1 /\ Assert(OrderLaw(n), "order law violated") /\ PrintT("SCN " \o ToJson(Scn(n)))
+             /\ (n % 5 = 0 => PrintT("SCN " \o ToJson(InvScn(n))))
 Spec == Init /\ [][Next]_n
 =============================================================================
